@@ -180,3 +180,102 @@ impl Drop for RunGuard {
         }
     }
 }
+
+/// One observable step of `App::run` (threaded: the accept thread and the thread that called `run`;
+/// tokio: the `select!` loop).
+#[derive(Clone, Copy, Debug, PartialEq, Eq)]
+pub enum AppEvent {
+    /// `incoming().next()` / `accept()` returned a connection; the peer's port if it could be read.
+    AcceptReturned(Option<u16>),
+    /// `incoming().next()` / `accept()` returned an error.
+    AcceptFailed,
+    /// The accept thread has loaded the shutdown flag and read this value.
+    FlagChecked(bool),
+    /// The connection condition returned this value.
+    Condition(bool),
+    /// The connection has been handed to the thread pool (`execute` returned) / the task has been spawned.
+    Executed,
+    /// The accept loop has been left.
+    LoopExit,
+    /// `thread_pool.stop()` returned.
+    PoolStopped,
+    /// Everything the accept thread owned (listener, thread pool, ...) has been dropped.
+    AppDropped,
+    /// The shutdown receiver's `recv()` returned / the cancellation branch of `select!` was taken.
+    SignalReceived,
+    /// The calling thread is about to store `true` into the shutdown flag.
+    FlagStoreBegin,
+    /// The store has been done.
+    FlagStored,
+    /// The calling thread is about to make the wake-up connection.
+    SelfConnectBegin,
+    /// The wake-up `connect` returned (and the connection has been dropped again).
+    SelfConnectDone,
+    /// `join` of the accept thread returned.
+    JoinDone,
+}
+
+/// Receives every [`AppEvent`]; the result asks for a perturbation like a [`Sink`]'s.
+pub type AppSink = Box<dyn Fn(AppEvent) -> u32 + Send + Sync>;
+
+static APP_SINK: Mutex<Option<AppSink>> = Mutex::new(None);
+
+/// Installs the app event sink, replacing any previous one.
+pub fn install_app_sink(sink: AppSink) {
+    *APP_SINK.lock().unwrap_or_else(PoisonError::into_inner) = Some(sink);
+}
+
+/// Removes the app event sink.
+pub fn remove_app_sink() {
+    *APP_SINK.lock().unwrap_or_else(PoisonError::into_inner) = None;
+}
+
+/// Reports an event of `App::run`. No-op unless a sink is installed. Never panics.
+pub fn app_event(ev: AppEvent) {
+    let hint = {
+        let guard = APP_SINK.lock().unwrap_or_else(PoisonError::into_inner);
+        match &*guard {
+            Some(sink) => sink(ev),
+            None => return,
+        }
+    };
+    match hint {
+        0 => {}
+        1 => std::thread::yield_now(),
+        n => std::thread::sleep(std::time::Duration::from_micros((n - 1) as u64)),
+    }
+}
+
+/// Captured by the accept thread's closure after everything else it owns, hence dropped last: reports
+/// [`AppEvent::AppDropped`] when the closure's captures (listener, thread pool, ...) are gone.
+pub struct AppDropGuard(());
+
+impl AppDropGuard {
+    /// Creates the guard.
+    #[allow(clippy::new_without_default)]
+    pub fn new() -> Self {
+        Self(())
+    }
+
+    /// Does nothing; mentioning the guard makes the closure capture it.
+    pub fn touch(&self) {}
+}
+
+impl Drop for AppDropGuard {
+    fn drop(&mut self) {
+        app_event(AppEvent::AppDropped);
+    }
+}
+
+/// Stands in for the shutdown flag inside the accept loop (by shadowing) so that the unchanged
+/// `shutdown_clone.load(..)` is reported with the value it read.
+pub struct TracedFlag<'a>(pub &'a std::sync::atomic::AtomicBool);
+
+impl TracedFlag<'_> {
+    /// `AtomicBool::load`, reported after it returned.
+    pub fn load(&self, order: std::sync::atomic::Ordering) -> bool {
+        let v = self.0.load(order);
+        app_event(AppEvent::FlagChecked(v));
+        v
+    }
+}
